@@ -409,6 +409,8 @@ class Interp:
         if v is NONE:
             return False
         if isinstance(v, VBytes):
+            if v.t is None:  # ASCII bytes kept as a string term
+                return z3.Length(v.s) > 0
             return z3.Length(v.t) > 0
         if isinstance(v, VList):
             return v.length() > 0
